@@ -70,6 +70,15 @@ def linkedConditions : List (String × String × String) := [
   ("LinkedLayer", "read", "open_file; kind == LinkedLayerType.EXTERNAL; version > 3; version > 2; kind == LinkedLayerType.ALIAS; kind == LinkedLayerType.DATA; version >= 5; version >= 6; version >= 7; kind == LinkedLayerType.EXTERNAL and version == 2"),
   ("LinkedLayer", "write", "self.open_file is not None; self.kind == LinkedLayerType.EXTERNAL; self.version > 3; self.version > 2; self.kind == LinkedLayerType.ALIAS; self.kind == LinkedLayerType.DATA; self.child_id is not None; self.mod_time is not None; self.lock_state is not None; self.kind == LinkedLayerType.EXTERNAL and self.version == 2")
 ]
+/-- options of the validators of SmartObjectLayerData.kind / .version -/
+def smartObjectKinds : List (List UInt8) := [[115, 111, 76, 68]]
+def smartObjectVersions : List Nat := [4, 5]
+/-- options of the validator of PlacedLayerData.version; members of PlacedLayerType -/
+def placedVersions : List Nat := [3]
+def placedLayerTypes : List Nat := [0, 1, 2, 3]
+/-- options of the validators of TypeToolObjectSetting.text_version / .warp_version -/
+def typeToolTextVersions : List Nat := [50]
+def typeToolWarpVersions : List Nat := [1]
 /-- unit2: `tagged_blocks.TYPES` restricted to the modelled classes: (key, class name), sorted -/
 def unit2Registry : List (List UInt8 × String) := [
   ([65, 110, 110, 111], "Annotations"),
@@ -121,6 +130,14 @@ def unit5Registry : List (List UInt8 × String) := [
   ([108, 110, 107, 51], "LinkedLayers"),
   ([108, 110, 107, 68], "LinkedLayers"),
   ([108, 110, 107, 69], "LinkedLayers")
+]
+/-- unit6: `tagged_blocks.TYPES` restricted to the modelled classes: (key, class name), sorted -/
+def unit6Registry : List (List UInt8 × String) := [
+  ([80, 108, 76, 100], "PlacedLayerData"),
+  ([83, 111, 76, 69], "SmartObjectLayerData"),
+  ([83, 111, 76, 100], "SmartObjectLayerData"),
+  ([84, 121, 83, 104], "TypeToolObjectSetting"),
+  ([112, 108, 76, 100], "PlacedLayerData")
 ]
 /-- unit1: calls of utils primitives (class, method, primitive, arguments), in source order -/
 def unit1Calls : List (String × String × String × String) := [
@@ -337,5 +354,30 @@ def unit5Calls : List (String × String × String × String) := [
   ("LinkedLayer", "write", "write_fmt", "fp, 'B', self.lock_state"),
   ("LinkedLayer", "write", "write_bytes", "fp, self.data"),
   ("LinkedLayer", "write", "write_padding", "fp, written, padding")
+]
+/-- unit6: calls of utils primitives (class, method, primitive, arguments), in source order -/
+def unit6Calls : List (String × String × String × String) := [
+  ("SmartObjectLayerData", "read", "read_fmt", "'4sI', fp"),
+  ("SmartObjectLayerData", "write", "write_fmt", "fp, '4sI', self.kind, self.version"),
+  ("SmartObjectLayerData", "write", "write_padding", "fp, written, padding"),
+  ("PlacedLayerData", "read", "read_fmt", "'4sI', fp"),
+  ("PlacedLayerData", "read", "read_pascal_string", "fp, 'macroman', padding=1"),
+  ("PlacedLayerData", "read", "read_fmt", "'4I', fp"),
+  ("PlacedLayerData", "read", "read_fmt", "'8d', fp"),
+  ("PlacedLayerData", "write", "write_fmt", "fp, '4sI', self.kind, self.version"),
+  ("PlacedLayerData", "write", "write_pascal_string", "fp, self.uuid, 'macroman', padding=1"),
+  ("PlacedLayerData", "write", "write_fmt", "fp, '4I', self.page, self.total_pages, self.anti_alias, self.layer_type.value"),
+  ("PlacedLayerData", "write", "write_fmt", "fp, '8d', *self.transform"),
+  ("PlacedLayerData", "write", "write_padding", "fp, written, padding"),
+  ("TypeToolObjectSetting", "read", "read_fmt", "'H', fp"),
+  ("TypeToolObjectSetting", "read", "read_fmt", "'6d', fp"),
+  ("TypeToolObjectSetting", "read", "read_fmt", "'H', fp"),
+  ("TypeToolObjectSetting", "read", "read_fmt", "'H', fp"),
+  ("TypeToolObjectSetting", "read", "read_fmt", "'4i', fp"),
+  ("TypeToolObjectSetting", "write", "write_fmt", "fp, 'H6d', self.version, *self.transform"),
+  ("TypeToolObjectSetting", "write", "write_fmt", "fp, 'H', self.text_version"),
+  ("TypeToolObjectSetting", "write", "write_fmt", "fp, 'H', self.warp_version"),
+  ("TypeToolObjectSetting", "write", "write_fmt", "fp, '4i', self.left, self.top, self.right, self.bottom"),
+  ("TypeToolObjectSetting", "write", "write_padding", "fp, written, padding")
 ]
 end PsdVerif.Generated.Payload
